@@ -1,4 +1,5 @@
 import Revm.Proofs.Memory
+import Revm.Proofs.MemoryOutcome
 /-! C11 — each call frame sees its own zero-initialised memory.
 
 `Model.Memory` is `SharedMemory` as coded (one buffer, checkpoints, `last_checkpoint`; release-profile
@@ -331,5 +332,115 @@ example : Spec.Memory.words (U64ops.saturatingAdd 3 2) < 2^32 := by decide +kern
 example : insertCallOutcomeMem exState 1 2 [7, 7, 7] = .ok ⟨[1, 2, 3, 4, 5, 7, 7, 8], [4, 0], 4⟩ := by decide +kernel
 example : setData exState 1 1 3 [7, 8] = .ok ⟨[1, 2, 3, 4, 5, 8, 0, 0], [4, 0], 4⟩ := by decide +kernel
 example : slice exState 3 2 = .ub ∧ copy exState 3 0 2 = .panic := by decide +kernel
+
+/-! ### re-entry of a child's result, on the integrated interpreter model
+
+`Model.Interp.insertCallOutcome` is the model of the whole `Interpreter::insert_call_outcome` (return-data buffer, gas
+give-back, refund, memory write, status word, `push!` overflow) that the frame machine of C01/C25 runs and that the
+`mem ico` lines of the C11 stream execute against the REAL function on memories with non-zero bytes in and around the
+window. The statements below are about that function, for every parent state, every child result, every window. -/
+
+open Revm.Model.Interp in
+/-- `insert_call_outcome_window` on `Interp.insertCallOutcome`: for every parent state and every child outcome whose
+written part of the window is addressable (the CALL made the whole window addressable), either the result is
+`FatalExternalError` (the `panic!`; nothing was written), or the function ends - normally or with `StackOverflow`
+from the `push!` of the status word - in a state whose memory has the SAME size, is byte-for-byte what it was outside
+`[out_offset, out_offset + min(out_len, returned.len()))`, holds the returned bytes there (nothing at all is written
+for an error-class result), and all frames below are untouched. Bytes of the window beyond the returned length are
+therefore NOT cleared. -/
+theorem interp_insert_call_outcome_window (retStart retEnd : Nat) (o : ChildResult) (s : IState)
+    (h : WF s.mem) (ho : retStart < U64) (hl : o.output.length < U64)
+    (hwin : min (retEnd - retStart) o.output.length ≠ 0 →
+      retStart + min (retEnd - retStart) o.output.length ≤ (ctx s.mem).length) :
+    (o.result = .FatalExternalError ∧ insertCallOutcome retStart retEnd o s = .fault .panic)
+    ∨ ∃ s', (insertCallOutcome retStart retEnd o s = .ok () s'
+              ∨ insertCallOutcome retStart retEnd o s = .halt .StackOverflow [] s')
+        ∧ WF s'.mem
+        ∧ (ctx s'.mem).length = (ctx s.mem).length
+        ∧ (∀ i, i < retStart ∨ retStart + min (retEnd - retStart) o.output.length ≤ i →
+              (ctx s'.mem)[i]? = (ctx s.mem)[i]?)
+        ∧ ((o.result.isOk = true ∨ o.result.isRevert = true) →
+              ∀ i, i < min (retEnd - retStart) o.output.length → (ctx s'.mem)[retStart + i]? = o.output[i]?)
+        ∧ (o.result.isOk = false → o.result.isRevert = false → s'.mem = s.mem)
+        ∧ abs s'.mem = ctx s'.mem :: (abs s.mem).tail := by
+  have hlen : (o.output.take (min (retEnd - retStart) o.output.length)).length
+      = min (retEnd - retStart) o.output.length := by
+    rw [List.length_take]; omega
+  rcases Proofs.MemoryOutcome.insertCallOutcome_mem retStart retEnd o s with hf | ⟨_, hnok, hnrev, s', hL, hm⟩ | ⟨hcls, hw⟩
+  · exact Or.inl hf
+  · obtain ⟨r, hr⟩ := abs_head h
+    refine Or.inr ⟨s', hL, by rw [hm]; exact h, by rw [hm], fun i _ => by rw [hm], ?_, fun _ _ => hm, by rw [hm, hr]; rfl⟩
+    intro hc; rcases hc with hc | hc
+    · rw [hnok] at hc; cases hc
+    · rw [hnrev] at hc; cases hc
+  · obtain ⟨m', hset⟩ := Proofs.MemoryOutcome.set_total h retStart
+      (o.output.take (min (retEnd - retStart) o.output.length))
+      (by intro hne; rw [hlen]; apply hwin; intro hz; apply hne
+          exact List.eq_nil_of_length_eq_zero (by rw [hlen]; exact hz))
+    rw [hset] at hw
+    obtain ⟨s', hL, hm⟩ := hw
+    obtain ⟨w1, w2, w3, w4, w5⟩ := Proofs.MemoryOutcome.set_window h ho (by rw [hlen]; omega) hset
+    rw [hlen] at w3 w4
+    refine Or.inr ⟨s', hL, by rw [hm]; exact w1, by rw [hm]; exact w2, by rw [hm]; exact w3, ?_, ?_, by rw [hm]; exact w5⟩
+    · intro _ i hi
+      rw [hm, w4 i hi, List.getElem?_take, if_pos hi]
+    · intro h1 h2
+      rcases hcls with hc | hc
+      · rw [h1] at hc; cases hc
+      · rw [h2] at hc; cases hc
+
+open Revm.Model.Interp in
+/-- `parent_size_unchanged` and the bytes behind a short return: when the child returns FEWER bytes than the window
+is long (none included), the rest of the window keeps the parent's bytes -/
+theorem interp_insert_call_outcome_short_return (retStart retEnd : Nat) (o : ChildResult) (s s' : IState)
+    (h : WF s.mem) (ho : retStart < U64) (hl : o.output.length < U64)
+    (hwin : retStart < retEnd → retEnd ≤ (ctx s.mem).length)
+    (hr : insertCallOutcome retStart retEnd o s = .ok () s'
+          ∨ insertCallOutcome retStart retEnd o s = .halt .StackOverflow [] s') :
+    (ctx s'.mem).length = (ctx s.mem).length
+    ∧ ∀ i, retStart + o.output.length ≤ i → (ctx s'.mem)[i]? = (ctx s.mem)[i]? := by
+  have hw : min (retEnd - retStart) o.output.length ≠ 0 →
+      retStart + min (retEnd - retStart) o.output.length ≤ (ctx s.mem).length := by
+    intro hne
+    have := hwin (by omega)
+    omega
+  rcases interp_insert_call_outcome_window retStart retEnd o s h ho hl hw with ⟨_, hp⟩ | ⟨s'', hL, _, h2, h3, _⟩
+  · rw [hp] at hr; rcases hr with hr | hr <;> cases hr
+  · have hs : s'' = s' := by
+      rcases hL with hL | hL <;> rcases hr with hr | hr <;> rw [hL] at hr <;> injection hr
+    subst hs
+    exact ⟨h2, fun i hi => h3 i (Or.inr (by omega))⟩
+
+open Revm.Model.Interp in
+/-- `insert_create_outcome` and `insert_eofcreate_outcome` (which are not even handed the shared memory) leave the
+parent's memory object exactly as it is, whatever the child returned -/
+theorem interp_insert_create_outcome_memory (o : ChildResult) (s : IState) :
+    (insertCreateOutcome o s = .fault .panic
+      ∨ ∃ s', (insertCreateOutcome o s = .ok () s' ∨ insertCreateOutcome o s = .halt .StackOverflow [] s')
+          ∧ s'.mem = s.mem)
+    ∧ (insertEofCreateOutcome o s = .fault .panic
+      ∨ ∃ s', (insertEofCreateOutcome o s = .ok () s' ∨ insertEofCreateOutcome o s = .halt .StackOverflow [] s')
+          ∧ s'.mem = s.mem) := by
+  refine ⟨?_, Proofs.MemoryOutcome.insertEofCreateOutcome_mem o s⟩
+  rcases Proofs.MemoryOutcome.insertCreateOutcome_mem o s with ⟨_, hp⟩ | hx
+  · exact Or.inl hp
+  · exact Or.inr hx
+
+/-- the parent of the examples: two frames, the running one `[5, 6, 7, 8]` -/
+def exParent : Model.Interp.IState :=
+  { Model.Interp.IState.init [0] [] 1000 false 17 0 0 0 {} exState with gas := ⟨1000, 400, 0⟩ }
+
+example : WF exParent.mem ∧ (1 : Nat) < U64 ∧ ([9] : List Nat).length < U64
+    ∧ (min (4 - 1) ([9] : List Nat).length ≠ 0 → 1 + min (4 - 1) ([9] : List Nat).length ≤ (ctx exParent.mem).length) := by
+  refine ⟨⟨⟨by decide, by decide, trivial⟩, rfl, by decide⟩, ?_, ?_, by decide⟩
+  all_goals (rw [U64_val]; decide)
+/-- window `[1, 4)`, one byte returned: only byte 1 changes, bytes 2 and 3 of the window keep `7, 8` -/
+example : ∃ s', Model.Interp.insertCallOutcome 1 4 ⟨.Return, [9], 100, 5, none⟩ exParent = .ok () s'
+    ∧ s'.mem = ⟨[1, 2, 3, 4, 5, 9, 7, 8], [4, 0], 4⟩ ∧ s'.stack = [1] ∧ s'.gas = ⟨1000, 500, 5⟩ :=
+  ⟨_, rfl, by decide +kernel, by decide +kernel, by decide +kernel⟩
+/-- a reverting child that returns nothing: memory untouched, `0` pushed -/
+example : ∃ s', Model.Interp.insertCallOutcome 0 4 ⟨.Revert, [], 100, 5, none⟩ exParent = .ok () s'
+    ∧ s'.mem = exState ∧ s'.stack = [0] ∧ s'.gas = ⟨1000, 500, 0⟩ :=
+  ⟨_, rfl, by decide +kernel, by decide +kernel, by decide +kernel⟩
 
 end Revm.Props.C11
